@@ -48,7 +48,7 @@ def run(tier, seed, replay=None):
     rng = random.Random(seed * 7919 + 16)
     g = PlanGen(rng)
     n = 70 if tier == "quick" else 1500
-    plans = [g.trait_args_plan() for _ in range(n)]
+    plans = [g.trait_args_plan() for _ in range(n)] + [g.diagonal_trait_args_plan() for _ in range(max(4, n // 8))]
     evs = PC.evaluate(so, plans)
     known = {f["id"] for f in C.findings_for(PROP)}
     ok_plans = []
